@@ -1,7 +1,7 @@
 """C08 — transforms compose, invert and convert to matrices consistently."""
 import algebra as A
 from algebra import El, ZERO, ONE
-from core import (Harness, sv, sm, sq, ss, Run, Conv, run_specs, report_dropped, ret_leaves, cmp_struct, single_ret, parse_guard, is_zero_test, flat, path_hyps)
+from core import (check_option_inverse, Harness, sv, sm, sq, ss, Run, Conv, run_specs, report_dropped, ret_leaves, cmp_struct, single_ret, parse_guard, is_zero_test, flat, path_hyps)
 import facts
 import specs
 
@@ -155,14 +155,30 @@ def check_inverse(run, S, name, spec, kw):
         elif val.get('n') == 'Some':
             seen['Some'] += 1
             run.ob(key + ':some', scale_is_zero is False, rule='K5 guard pass-set', expected='Some(..) only when scale tests different from zero', found=[g_['text'][:100] for g_, w in gs], where=where)
-            Ri = rot.inv(R)
-            got = cv.val(val['f'][0])
-            if vecform:
-                exp = rot.act(Ri, [x / s for x in v])
-            else:
-                exp = dec_struct(rot, ONE / s, Ri, [-(x) / s for x in rot.act(Ri, d)])
-            with path_hyps(S, guards if others else ()):
-                cmp_struct(run, S, name, got, exp, 'K3: inverse = (1/s, R^-1, -R^-1(d)/s)' if not vecform else 'K3: R^-1(v/s)', where=where, tag='leaf%d' % li)
+            # A Basis2/Basis3 value is a rotation: its matrix is parametrised as a general rotation (M(q), |q| = 1, resp.
+            # [[c,s],[-s,c]]), so that the matrix inverse and the transpose are the same answer - the property does not say how
+            # the rotation is inverted.  (Quaternion rotations are kept general: conj/|q|^2 is exact for every q.)
+            Rp, cvp, rels = R, cv, []
+            if rot.kind != 'q':
+                comps = 'xyz'[:rot.dim]
+                if rot.dim == 3:
+                    Rp = specs.q_matrix(sq('r'))
+                    rels = [specs.unit_quat_hyp('r')]
+                else:
+                    sn_, cs_ = specs.sincos(El.v('r.t'))
+                    Rp = specs.rot2(sn_, cs_)
+            with specs.hyps(*rels):
+                if rot.kind != 'q':
+                    env = {'a0.rot.mat.%s.%s' % (comps[c], comps[r_]): Rp[c][r_] for c in range(rot.dim) for r_ in range(rot.dim)}
+                    cvp = Conv(S, env=env)
+                Ri = rot.inv(Rp)
+                got = cvp.val(val['f'][0])
+                if vecform:
+                    exp = rot.act(Ri, [x / s for x in v])
+                else:
+                    exp = dec_struct(rot, ONE / s, Ri, [-(x) / s for x in rot.act(Ri, d)])
+                with path_hyps(S, guards if others else ()):
+                    cmp_struct(run, S, name, got, exp, 'K3: inverse = (1/s, R^-1, -R^-1(d)/s)' if not vecform else 'K3: R^-1(v/s)', where=where, tag='leaf%d' % li)
         else:
             run.ob(key + ':kind', False, rule='K5', expected='Option', found=S.showval(val)[:100], where=where)
     run.ob('%s:%s:cases' % (PROP, name), seen['None'] >= 1 and seen['Some'] >= 1, rule='K5 guard pass-set', expected='both a None and a Some outcome exist', found=seen, where=where)
@@ -170,29 +186,12 @@ def check_inverse(run, S, name, spec, kw):
 
 def check_mat_inverse_vec(run, S, name, spec, kw):
     n, hom = spec[1], spec[2]
-    r = run.use_root(S, name)
-    if r is None:
-        run.ob('%s:%s:present' % (PROP, name), False, rule='root-present', expected='root', found='missing')
-        return
-    where = r.get('span')
-    o = r['out']
-    cv = Conv(S)
-    a = sm('a0', n)
-    D = A.det(a)
-    ok = o['k'] == 'ite' and o['t']['k'] == 'ret' and o['e']['k'] == 'ret'
-    if not run.ob('%s:%s:shape' % (PROP, name), ok, rule='K5', expected='Ite(det == 0, None, Some(..))', found=[l['k'] for g_, l in ret_leaves(o)], where=where):
-        return
-    g_ = parse_guard(S, cv, o['c'])
-    gok = g_['kind'] == 'eq' and not g_['neg'] and (A.eq(g_['a'] - g_['b'], D) or A.eq(g_['a'] - g_['b'], -D))
-    run.ob('%s:%s:guard' % (PROP, name), gok and o['t']['v'].get('n') == 'None', rule='K5', expected='None exactly when det == 0', found=g_['text'][:200], where=where)
-    adj = A.adjugate(a)
-    N = [[adj[c][r_] / D for r_ in range(n)] for c in range(n)]
     v = sv('a1', hom)
-    vv = v + [ZERO] * (n - hom)
-    exp = A.matvec(N, vv)[:hom]
-    some = o['e']['v']
-    if run.ob('%s:%s:some' % (PROP, name), some.get('n') == 'Some', rule='K5', expected='Some', found=S.showval(some)[:80], where=where):
-        cmp_struct(run, S, name, cv.val(some['f'][0]), exp, 'K3: inverse_transform_vector = M^-1 (v, 0)', where=where)
+
+    def expect(Minv, mapping):
+        vv = v + [ZERO] * (n - hom)
+        return A.matvec(Minv, vv)[:hom]
+    check_option_inverse(run, S, name, n, expect_fn=expect, rule='K5', tag='ret')
 
 
 def check_to_matrix(run, S, name, spec, kw):
